@@ -31,7 +31,7 @@ Definition registry : list (string * thm) := [
   ("C03.mean_den", cite ReduceExtP.mean_den_proof);
   ("C03.var_den", cite ReduceExtP.var_den_proof);
   ("C03.nanreduce_den", cite ReduceExtP.nanreduce_den_proof);
-  ("C05.conversion_chain_den", cite ConvertP.conversion_chain_den_partial_proof);
+  ("C05.conversion_chain_den", cite ConvertP.conversion_chain_den_proof);
   ("C05.change_axes_den", cite ConvertP.change_axes_den_proof);
   ("C05.from_dense_roundtrip", cite ConvertP.from_dense_roundtrip_proof);
   ("C08.transpose_den", cite ShapeOpsP.transpose_den_proof);
@@ -79,6 +79,9 @@ Theorem registry_sound_proof : forall n (t : thm), In (n, t) registry -> proj1_s
 Proof. intros n t _. exact (proj2_sig t). Qed.
 
 (* ------------------------------------------------------------------ (2) explicit fill corollaries *)
+(* break a (possibly growing) conjunction into hypotheses; the corollaries then pick the conjuncts they need *)
+Ltac conjs H := repeat match type of H with _ /\ _ => let a := fresh "C" in destruct H as [a H] end.
+
 Section Corollaries.
   Variable V : Type.
   Variable veqb : V -> V -> bool.
@@ -133,12 +136,11 @@ Section Corollaries.
   (* conversions (C05): any chain of format conversions keeps the fill and every position *)
   Theorem fill_right_conversion_proof (add : V -> V -> V) (c0 : coo V) (hops : list Convert.fmt) :
     canonical V c0 -> shape_ok (c_shape c0) -> forallb (Convert.hop_okb (c_shape c0)) hops = true ->
-    Convert.dok0d_clause (c_shape c0) hops = true ->
     exists r, Convert.run_chain veqb add (Convert.RCoo c0) hops = Ok r
       /\ Convert.fill_r r = c_fill c0 /\ forall ix, in_range (c_shape c0) ix -> Convert.den_r r ix = den c0 ix.
   Proof.
-    intros H1 H2 H3 H4.
-    destruct (ConvertP.conversion_chain_den_partial_proof V veqb add veqb_eq c0 hops H1 H2 H3 H4) as [r [E [_ [_ [Hf Hd]]]]].
+    intros H1 H2 H3.
+    destruct (ConvertP.conversion_chain_den_proof V veqb add veqb_eq c0 hops H1 H2 H3) as [r [E [_ [_ [Hf Hd]]]]].
     exists r. repeat split; assumption.
   Qed.
 End Corollaries.
@@ -151,7 +153,7 @@ Theorem fill_right_getitem_proof (V : Type) (kf : nat -> nat) (x : coo V) (ix : 
   c_fill y = c_fill x /\ forall j, in_range sh' j -> den y j = den x (g j).
 Proof.
   intros H1 H2 H3 H4 E1 E2. pose proof (CooIndexP.coo_getitem_basic_proof V kf x ix H1 H2 H3 H4) as H.
-  rewrite E1, E2 in H. destruct H as [_ [Hf [_ Hd]]]. split; assumption.
+  rewrite E1, E2 in H. conjs H. split; assumption.
 Qed.
 
 (* shape operations (C08): the fill is unchanged and every position is NumPy's *)
@@ -161,7 +163,7 @@ Theorem fill_right_transpose_proof (V : Type) (x : coo V) axes r :
   /\ forall ix, in_range (c_shape r) ix ->
        den r ix = NpShapeOps.np_transpose (ShapeOpsP.tr_perm (ShapeOps.ndim x) axes) (den x) ix.
 Proof.
-  intros Hc E. destruct (ShapeOpsP.transpose_den_proof V x Hc axes r E) as [_ [_ [Hf Hd]]]. split; assumption.
+  intros Hc E. pose proof (ShapeOpsP.transpose_den_proof V x Hc axes r E) as H. cbv zeta in H. conjs H. split; assumption.
 Qed.
 
 Theorem fill_right_reshape_proof (V : Type) (x : coo V) new r :
@@ -169,13 +171,13 @@ Theorem fill_right_reshape_proof (V : Type) (x : coo V) new r :
   c_fill r = c_fill x
   /\ forall ix, in_range (c_shape r) ix -> den r ix = NpShapeOps.np_reshape (c_shape x) (c_shape r) (den x) ix.
 Proof.
-  intros Hc Hs E. destruct (ShapeOpsP.reshape_den_proof V x Hc Hs new r E) as [_ [_ [Hf [_ Hd]]]]. split; assumption.
+  intros Hc Hs E. pose proof (ShapeOpsP.reshape_den_proof V x Hc Hs new r E) as H. conjs H. split; assumption.
 Qed.
 
 Theorem fill_right_flip_proof (V : Type) (veqb : V -> V -> bool) (x : coo V) axis r :
   canonical V x -> ShapeOps.coo_flip x axis = Ok r -> c_fill r = c_fill x /\ c_shape r = c_shape x.
 Proof.
-  intros Hc E. destruct (ShapeOpsP.flip_den_proof V veqb x Hc axis r E) as [_ [Hs [Hf _]]]. split; assumption.
+  intros Hc E. pose proof (ShapeOpsP.flip_den_proof V veqb x Hc axis r E) as H. cbv zeta in H. conjs H. split; assumption.
 Qed.
 
 (* ------------------------------------------------------------------ (3) the table obligations *)
@@ -201,5 +203,5 @@ Definition discharge_counts : nat * nat * nat * nat :=
    FillRules.count_discharge (fun d => match d with FillRules.ByCite _ => true | _ => false end),
    FillRules.count_discharge (fun d => match d with FillRules.CampaignOnly => true | _ => false end),
    FillRules.count_discharge (fun d => match d with FillRules.NotApplicable => true | _ => false end)).
-Example discharge_counts_value : discharge_counts = (22, 91, 36, 42)%nat.
+Example discharge_counts_value : discharge_counts = (22, 95, 36, 42)%nat.
 Proof. vm_compute. reflexivity. Qed.
